@@ -30,6 +30,17 @@ pub struct Case {
     /// for unmutated roots: the description the frame was built from (round-trip oracle)
     #[serde(default)]
     pub root_desc: Option<RootDesc>,
+    /// builder -> parser round trip: the description handed to the real builder (then `bytes` is unused)
+    #[serde(default)]
+    pub built: Option<Built>,
+}
+
+/// A description handed to the real builders; the built frame is decoded by the real parser and compared with it.
+#[derive(Clone, Debug, Serialize, Deserialize)]
+pub enum Built {
+    Data(crate::checks::c01::DataCase),
+    JoinAccept { join_nonce: u32, net_id: u32, devaddr: u32, dl_settings: u8, rx_delay: u8, cf_kind: u8, mask: [u8; 9], freqs: [u32; 5], key: usize },
+    JoinRequest { join_eui: u64, dev_eui: u64, dev_nonce: u16, key: usize },
 }
 
 #[derive(Clone, Debug, Serialize, Deserialize)]
@@ -54,7 +65,141 @@ fn mclass(path: &str) -> &str {
     last.split(':').next().unwrap_or(last)
 }
 
+/// Builder -> parser round trip on the real code alone (no reference codec involved): whatever the real builder emits for a
+/// description must come back from the real checked decode as that description.
+pub fn eval_built(b: &Built) -> Vec<(String, String)> {
+    use lorawan::creator::{DataFrame, JoinAccept, JoinRequest, Payload};
+    use lorawan::default_crypto::DefaultNetworkCrypto;
+    use lorawan::parser::{DevAddr, DevEui, Frequency, JoinEui, JoinNonce, JoinRequestPayload, NetId};
+    use lorawan::types::{ChannelMask, DLSettings};
+    let mut v = vec![];
+    let r = catch(|| -> Vec<(String, String)> {
+        let mut v = vec![];
+        match b {
+            Built::Data(dc) => {
+                let d = dc.desc();
+                let (ni, ai) = crate::checks::c01::KEY_PAIRS[dc.keypair];
+                let nwk = DefaultCrypto::new(&AES128(KEYS[ni]));
+                let app = DefaultCrypto::new(&AES128(KEYS[ai]));
+                let payload = match d.fport {
+                    None => Payload::None,
+                    Some(0) => Payload::MacCommands(&d.frm),
+                    Some(p) => Payload::Data { f_port: std::num::NonZeroU8::new(p).unwrap(), data: &d.frm },
+                };
+                let f = DataFrame {
+                    frame_type: ftype(d.mtype),
+                    dev_addr: DevAddr::from_value(d.devaddr),
+                    adr: d.adr,
+                    adr_ack_req: d.adr_ack_req,
+                    ack: d.ack,
+                    f_pending: d.f_pending,
+                    fcnt: d.fcnt,
+                    f_opts: &d.fopts,
+                    payload,
+                };
+                let mut buf = vec![0xEEu8; 300];
+                let Ok(built) = f.build_into(&mut buf, &nwk, Some(&app)).map(|x| x.to_vec()) else { return v };
+                let mut rx = built.clone();
+                match DecryptedDataPayload::check_mic_and_decrypt_in_place(&mut rx, &nwk, Some(&app), d.fcnt) {
+                    Err(e) => v.push(("C02|built-roundtrip|data|rejected".into(), format!("{dc:?}: built {} is refused by the checked decode: {e:?}", hex(&built)))),
+                    Ok(p) => {
+                        let h = p.fhdr();
+                        let c = h.fctrl();
+                        let (port, body): (Option<u8>, &[u8]) = match p.frm_payload() {
+                            FrmPayload::Data(x) => (p.f_port(), x),
+                            FrmPayload::MacCommands(x) => (p.f_port(), x),
+                            FrmPayload::None => (p.f_port(), &[]),
+                        };
+                        let up = d.mtype == 2 || d.mtype == 4;
+                        let ok = p.frame_type() == ftype(d.mtype)
+                            && h.dev_addr().value() == d.devaddr
+                            && h.fcnt() == d.fcnt as u16
+                            && h.f_opts() == &d.fopts[..]
+                            && c.adr() == d.adr
+                            && c.ack() == d.ack
+                            && (!up || c.adr_ack_req() == d.adr_ack_req)
+                            && (up || c.f_pending() == d.f_pending)
+                            && port == d.fport
+                            && body == &d.frm[..];
+                        if !ok {
+                            v.push(("C02|built-roundtrip|data|fields".into(), format!("{dc:?}: built {} decodes to other fields (port {port:?}, payload {})", hex(&built), hex(body))));
+                        }
+                    }
+                }
+            }
+            Built::JoinAccept { join_nonce, net_id, devaddr, dl_settings, rx_delay, cf_kind, mask, freqs, key } => {
+                let cf = match cf_kind {
+                    0 => None,
+                    1 => {
+                        let mut fr = [Frequency::default(); 5];
+                        for i in 0..5 {
+                            let le = freqs[i].to_le_bytes();
+                            fr[i] = Frequency::from_wire_bytes([le[0], le[1], le[2]]);
+                        }
+                        Some(CfList::DynamicChannel(fr))
+                    }
+                    _ => Some(CfList::FixedChannel(ChannelMask::<9>::from(*mask))),
+                };
+                let ja = JoinAccept {
+                    join_nonce: JoinNonce::from_value(*join_nonce),
+                    net_id: NetId::from_value(*net_id),
+                    dev_addr: DevAddr::from_value(*devaddr),
+                    dl_settings: DLSettings::new(*dl_settings),
+                    rx_delay: *rx_delay,
+                    c_f_list: cf.clone(),
+                };
+                let mut buf = vec![0xEEu8; 64];
+                let Ok(built) = ja.build_into(&mut buf, &DefaultNetworkCrypto::new(&AES128(KEYS[*key]))).map(|x| x.to_vec()) else { return v };
+                let mut rx = built.clone();
+                match DecryptedJoinAcceptPayload::check_mic_and_decrypt_in_place(&mut rx, &DefaultCrypto::new(&AES128(KEYS[*key]))) {
+                    Err(e) => v.push(("C02|built-roundtrip|joinaccept|rejected".into(), format!("{b:?}: built {} is refused: {e:?}", hex(&built)))),
+                    Ok(d) => {
+                        let cf_ok = match (d.c_f_list(), &cf) {
+                            (None, None) => true,
+                            (Some(CfList::DynamicChannel(a)), Some(CfList::DynamicChannel(w))) => (0..5).all(|i| a[i].as_wire_bytes() == w[i].as_wire_bytes()),
+                            (Some(CfList::FixedChannel(a)), Some(CfList::FixedChannel(w))) => a.as_ref() == w.as_ref() && (0..72).all(|i| a.is_enabled(i) == w.is_enabled(i)),
+                            _ => false,
+                        };
+                        let ok = d.join_nonce().value() == *join_nonce
+                            && d.net_id().value() == *net_id
+                            && d.dev_addr().value() == *devaddr
+                            && d.dl_settings().raw_value() == *dl_settings
+                            && d.rx_delay() == *rx_delay
+                            && cf_ok;
+                        if !ok {
+                            v.push((format!("C02|built-roundtrip|joinaccept|{}", if cf_ok { "fields" } else { "cflist" }), format!("{b:?}: built {} decodes to {}", hex(&built), hex(d.as_bytes()))));
+                        }
+                    }
+                }
+            }
+            Built::JoinRequest { join_eui, dev_eui, dev_nonce, key } => {
+                let jr = JoinRequest { join_eui: JoinEui::from_value(*join_eui), dev_eui: DevEui::from_value(*dev_eui), dev_nonce: DevNonce::from_value(*dev_nonce) };
+                let c = DefaultCrypto::new(&AES128(KEYS[*key]));
+                let mut buf = [0xEEu8; 32];
+                let Ok(built) = jr.build_into(&mut buf, &c).map(|x| x.to_vec()) else { return v };
+                match JoinRequestPayload::parse(&built[..]) {
+                    Err(e) => v.push(("C02|built-roundtrip|joinrequest|rejected".into(), format!("{b:?}: built {} does not parse: {e:?}", hex(&built)))),
+                    Ok(p) => {
+                        if !(p.join_eui().value() == *join_eui && p.dev_eui().value() == *dev_eui && p.dev_nonce().value() == *dev_nonce && p.validate_mic(&c)) {
+                            v.push(("C02|built-roundtrip|joinrequest|fields".into(), format!("{b:?}: built {}", hex(&built))));
+                        }
+                    }
+                }
+            }
+        }
+        v
+    });
+    match r {
+        Ok(mut x) => v.append(&mut x),
+        Err(p) => v.push((format!("C02|built-roundtrip|panic|{}", panic_site(&p)), format!("panic on {b:?}: {p}"))),
+    }
+    v
+}
+
 pub fn eval(c: &Case) -> Vec<(String, String)> {
+    if let Some(b) = &c.built {
+        return eval_built(b);
+    }
     let bytes = unhex(&c.bytes);
     let nwk = KEYS[c.nwk];
     let app = KEYS[c.app];
@@ -508,6 +653,7 @@ pub fn run(tier: Tier, replay: Option<&str>) {
                     fcnt: h,
                     path: path.to_string(),
                     root_desc: if nk == r.nwk && ak == r.app && h == r.fcnt { root_desc.cloned() } else { None },
+                    built: None,
                 };
                 let v = eval(&c);
                 if v.is_empty() {
@@ -599,7 +745,7 @@ pub fn run(tier: Tier, replay: Option<&str>) {
         let mut n = 0u64;
         let r0 = Root { bytes: vec![], desc: None, nwk: 2, app: 4, fcnt: 0, label: "short".into(), sweep: false };
         let mut go = |s: &[u8]| {
-            let c = Case { bytes: hex(s), nwk: r0.nwk, app: r0.app, fcnt: 0, path: "short".into(), root_desc: None };
+            let c = Case { bytes: hex(s), nwk: r0.nwk, app: r0.app, fcnt: 0, path: "short".into(), root_desc: None, built: None };
             for (sig, what) in eval(&c) {
                 ctx.violation(sig, what, serde_json::to_value(&c).unwrap(), s.len());
             }
@@ -623,7 +769,81 @@ pub fn run(tier: Tier, replay: Option<&str>) {
         ctx.tick(n);
     });
 
-    let nstates = states.lock().unwrap().len() as u64 + short.load(Ordering::Relaxed);
+    // builder -> parser round trips on the real code: a sub-product of C01's frame descriptions, every CFList shape
+    let built_n = AtomicU64::new(0);
+    let mut bjobs: Vec<Built> = vec![];
+    for mtype in 2..=5u8 {
+        for flags in 0..16u8 {
+            for fopts_len in 0..=15usize {
+                for (kind, port) in [(0u8, 0u8), (1, 1), (1, 224), (1, 255), (2, 0)] {
+                    if kind == 2 && fopts_len > 0 {
+                        continue;
+                    }
+                    let lens: &[usize] = if kind == 0 { &[0] } else { &[0, 1, 15, 16, 17, 32, 33, 100, 208, 224, 225, 239, 240, 241, 242] };
+                    for &len in lens {
+                        for fcnt in [0u32, 0xFFFF, 0x1_0000, 0xFFFF_FFFF] {
+                            if (flags != 0 || fcnt != 0x1_0000) && ![0, 1, 16, 17, 241, 242].contains(&len) {
+                                continue;
+                            }
+                            bjobs.push(Built::Data(crate::checks::c01::DataCase {
+                                mtype,
+                                devaddr: 0x2601_1234,
+                                adr: flags & 8 != 0,
+                                adr_ack_req: flags & 4 != 0,
+                                ack: flags & 2 != 0,
+                                f_pending: flags & 1 != 0,
+                                fcnt,
+                                fopts_len,
+                                kind,
+                                port,
+                                len,
+                                content: 2,
+                                keypair: 2,
+                                crypto: 0,
+                                buf: 2,
+                                app_key: true,
+                            }));
+                        }
+                    }
+                }
+            }
+        }
+    }
+    let mut masks: Vec<[u8; 9]> = vec![[0; 9], [0xff; 9], [1, 2, 3, 4, 5, 6, 7, 8, 9]];
+    for bit in 0..72 {
+        let mut m = [0u8; 9];
+        m[bit / 8] = 1 << (bit % 8);
+        masks.push(m);
+        let mut z = [0xffu8; 9];
+        z[bit / 8] &= !(1 << (bit % 8));
+        masks.push(z);
+    }
+    for dl in [0u8, 0x35, 0x7f, 0xff] {
+        for rx_delay in [0u8, 1, 15] {
+            bjobs.push(Built::JoinAccept { join_nonce: 0x010203, net_id: 0x040506, devaddr: 0x2601_1234, dl_settings: dl, rx_delay, cf_kind: 0, mask: [0; 9], freqs: [0; 5], key: 2 });
+            for m in &masks {
+                bjobs.push(Built::JoinAccept { join_nonce: 0xfffefd, net_id: 0x000001, devaddr: 0xffff_ffff, dl_settings: dl, rx_delay, cf_kind: 2, mask: *m, freqs: [0; 5], key: 2 });
+            }
+            for fr in [[0u32; 5], [0xffffff; 5], [8671000, 8673000, 8675000, 8677000, 8679000], [1, 0x100, 0x10000, 0x800000, 0x7fffff], [0, 8671000, 0, 0xffffff, 1]] {
+                bjobs.push(Built::JoinAccept { join_nonce: 0x800000, net_id: 0x7fffff, devaddr: 0, dl_settings: dl, rx_delay, cf_kind: 1, mask: [0; 9], freqs: fr, key: 4 });
+            }
+        }
+    }
+    for dn in [0u16, 1, 0xff, 0x100, 0xfffe, 0xffff] {
+        for e in [0u64, 1, u64::MAX, 0x0102_0304_0506_0708, 0x8000_0000_0000_0000] {
+            bjobs.push(Built::JoinRequest { join_eui: e, dev_eui: !e, dev_nonce: dn, key: 2 });
+        }
+    }
+    bjobs.par_iter().for_each(|b| {
+        for (sig, what) in eval_built(b) {
+            let c = Case { bytes: String::new(), nwk: 0, app: 0, fcnt: 0, path: "built".into(), root_desc: None, built: Some(b.clone()) };
+            ctx.violation(sig, what, serde_json::to_value(&c).unwrap(), 0);
+        }
+        built_n.fetch_add(1, Ordering::Relaxed);
+        ctx.tick(1);
+    });
+
+    let nstates = states.lock().unwrap().len() as u64 + short.load(Ordering::Relaxed) + built_n.load(Ordering::Relaxed);
     let sample_root = &roots[roots.len() / 3];
     let m = mutations(&sample_root.bytes);
     let samples = json!([
@@ -638,7 +858,8 @@ pub fn run(tier: Tier, replay: Option<&str>) {
         "samples": samples,
         "evaluations": ctx.evals(),
         "distinct_nontrivial": nstates,
-        "rule": "states = distinct byte strings executed on the real parser at mutation depth <= 1 from every root (frames with every FPort 1..255 are presented unmutated) plus every byte string of length 0..maxlen (counted exactly); depth-2 strings are counted separately as generated (duplicates possible); transitions = mutation edges applied; every structural mutation is also presented with a MIC that verifies again; every root is also presented with its MIC recomputed for five counters whose low half differs from the wire counter / of the next epoch; every state is presented under key sets {right, swapped, wrong} x counter hints {N, N+-0x10000, low half off, 0}; after every successful checked decode the buffer is compared with the two-call path and decrypted again (must restore the received bytes)",
+        "rule": "states = distinct byte strings executed on the real parser at mutation depth <= 1 from every root (frames with every FPort 1..255 are presented unmutated) plus every byte string of length 0..maxlen (counted exactly); depth-2 strings are counted separately as generated (duplicates possible); transitions = mutation edges applied; every structural mutation is also presented with a MIC that verifies again; every root is also presented with its MIC recomputed for five counters whose low half differs from the wire counter / of the next epoch; every state is presented under key sets {right, swapped, wrong} x counter hints {N, N+-0x10000, low half off, 0}; after every successful checked decode the buffer is compared with the two-call path and decrypted again (must restore the received bytes); builder -> parser round trips on the real code alone: frame type x header flags x FOpts length 0..15 x payload kind x boundary payload lengths up to 242 x counters, JoinAccepts with every single-bit and single-zero fixed-plan mask / dynamic frequency patterns, JoinRequests",
+        "built_roundtrips": built_n.load(Ordering::Relaxed),
         "roots": roots.len(),
         "depth": if th { 2 } else { 1 },
         "depth2_strings_generated": depth2.load(Ordering::Relaxed),
